@@ -144,7 +144,8 @@ class C14:
             b.emit('prior_sample', {'pr': d_, 'size': rng.choice([None, 3]),
                                     'script': None,
                                     'seed': rng.randrange(2 ** 31)},
-                   tags={'k': 'sample-derived', 'sample': True})
+                   tags={'k': 'sample-derived', 'sample': True,
+                         'timeout_violation': 'C14.sample'})
         for x_, y_ in twins:
             # two equal-looking but separate random variables combined
             h = b.emit('derive', {'expr': {
@@ -155,7 +156,8 @@ class C14:
             b.emit('prior_sample', {'pr': h, 'size': rng.choice([None, 3]),
                                     'script': None,
                                     'seed': rng.randrange(2 ** 31)},
-                   tags={'k': 'sample-derived', 'sample': True})
+                   tags={'k': 'sample-derived', 'sample': True,
+                         'timeout_violation': 'C14.sample'})
         for _ in range(rng.randint(8, 28)):
             c = rng.random()
             if c < 0.3:
@@ -181,7 +183,8 @@ class C14:
                 b.emit('prior_sample', {'pr': pr, 'size': size,
                                         'script': script,
                                         'seed': rng.randrange(2 ** 31)},
-                       tags={'k': 'sample', 'sample': True})
+                       tags={'k': 'sample', 'sample': True,
+                             'timeout_violation': 'C14.sample'})
             elif c < 0.42:
                 leaves = pool + derived[-3:]
                 e = draw_expr(rng, leaves, rng.randint(1, 3))
@@ -195,7 +198,8 @@ class C14:
                 b.emit('prior_sample', {'pr': pr, 'size': size,
                                         'script': None,
                                         'seed': rng.randrange(2 ** 31)},
-                       tags={'k': 'sample-derived', 'sample': True})
+                       tags={'k': 'sample-derived', 'sample': True,
+                         'timeout_violation': 'C14.sample'})
                 if rng.random() < 0.5:
                     b.emit('prior_info', {'pr': pr},
                            tags={'k': 'guess-derived', 'info': True})
@@ -224,6 +228,7 @@ class C14:
                     'prs': prs, 'nguess': rng.randint(1, 6),
                     'scaling': rng.choice([1, 0.5, 2.0]), 'seed': seed},
                     tags={'k': 'generate_guess', 'gg': True,
+                          'timeout_violation': 'C14.sample',
                           'ref': seed is not None,
                           'rng_dependent': seed is None, 'rng_state': True})
             else:
